@@ -40,8 +40,11 @@ func Prepare(p *core.Program) {
 				ptypes = append(ptypes, sig.Params().At(i).Type().String())
 			}
 			switch {
-			case res.Len() == 1 && res.At(0).Type().String() == "[]*golang.org/x/net/html.Node" && sig.Params().Len() >= 1 && isNode(sig.Params().At(0).Type()) && restBasic(sig, 1):
+			case res.Len() >= 1 && res.At(0).Type().String() == "[]*golang.org/x/net/html.Node" && restBool(res, 1) && sig.Params().Len() >= 1 && isNode(sig.Params().At(0).Type()) && restBasic(sig, 1):
 				rs.directDescendants = f
+				if res.Len() > 1 {
+					core.RoleFlagResults[f] = true
+				}
 			case res.Len() == 2 && res.At(0).Type().String() == "int" && res.At(1).Type().String() == "int":
 				rs.rowsAndColumns = f
 			case res.Len() == 1 && res.At(0).Type().String() == "bool" && sig.Params().Len() == 2 && ptypes[0] == "[]*golang.org/x/net/html.Node" && ptypes[1] == "map[string]bool":
@@ -81,4 +84,14 @@ func restBasic(sig *types.Signature, k int) bool {
 func roles(p *core.Program) *roleSet {
 	Prepare(p)
 	return rolesOf[p]
+}
+
+// restBool: the results from index k on are booleans (facts handed back along with the result).
+func restBool(res *types.Tuple, k int) bool {
+	for i := k; i < res.Len(); i++ {
+		if bt, ok := res.At(i).Type().Underlying().(*types.Basic); !ok || bt.Kind() != types.Bool {
+			return false
+		}
+	}
+	return true
 }
